@@ -1,8 +1,9 @@
 #!/bin/sh
-# confirm and file the two round-4 changes of one property: tools/round4.sh C03 [props-to-run, comma separated]
+# confirm and file the (up to two) changes a sub-agent wrote for one property:
+#   tools/round4.sh C03 [props-to-run, comma separated] [out-dir prefix, default /tmp/out4_] [id offset, default 6]
 HERE=$(cd "$(dirname "$0")/.." && pwd)
-P=$1; PROPS=${2:-$P}
+P=$1; PROPS=${2:-$P}; PRE=${3:-/tmp/out4_}; OFF=${4:-6}
 for k in 1 2; do
-  [ -f /tmp/out4_$P/change$k.diff ] || continue
-  "$HERE/tools/verify_seeded.py" /tmp/out4_$P/change$k.diff /tmp/out4_$P/demo$k.py /tmp/out4_$P/meta$k.json $P-agent-$((6+k)) --props $PROPS
+  [ -f $PRE$P/change$k.diff ] || continue
+  "$HERE/tools/verify_seeded.py" $PRE$P/change$k.diff $PRE$P/demo$k.py $PRE$P/meta$k.json $P-agent-$((OFF+k)) --props $PROPS
 done
